@@ -151,7 +151,9 @@ HostShapes == {"a", "b", "none", "ab", "ba", "aa"}
 H1Syntax == {"obsfold", "barelf", "nul", "cr", "spcolon"}
 H1Cl == {"cl:5", "cl:3", "cl:plus", "cl:hex", "cl:empty", "cl:listeq", "cl:listne"}
 H1Te == {"te:chunked", "te:gzip", "te:chunked,identity", "te:gzip,chunked", "te:xchunked", "te:junk"}
-H1Tok == H1Syntax \cup H1Cl \cup H1Te \cup {"badname", "conn:close", "conn:keepalive", "cookie"}
+\* hop: a hop-by-hop field without framing meaning (Keep-Alive, TE, Proxy-Connection, Trailer, HTTP2-Settings): forwarded to an
+\* H1 backend as it is, never to an H2 backend (mux/converter.rs)
+H1Tok == H1Syntax \cup H1Cl \cup H1Te \cup {"badname", "conn:close", "conn:keepalive", "cookie", "hop"}
 \* trframing: trailer section carrying Content-Length / Host (RFC 9110 6.5.1: never used for framing or routing)
 ChunkShapes == {"valid", "trailers", "trframing", "badsize", "ext", "lf"}
 
